@@ -112,9 +112,10 @@ def binary_round(ck, rng, model, helper, stats):
     elif kind == 'attachment header':
         rule = b'match attachment header "Content-Type" /%s/ move "%s"' % (hpat, dst.encode())
     elif kind == 'block':
-        rule = b'match all attachment {\n\t\tmatch header "Content-Type" /%s/ exec stdin body "%s"\n\t}' % (hpat, helper.encode())
+        rule = b'match all attachment {\n\t\tmatch header "Content-Type" /%s/ exec %s "%s"\n\t}' % (hpat, rng.choice([b'stdin body', b'body stdin']), helper.encode())
     else:
-        rule = b'match all exec stdin body "%s"' % helper.encode()
+        # (the two options of exec in either order)
+        rule = b'match all exec %s "%s"' % (rng.choice([b'stdin body', b'body stdin', b'body\n\t\tstdin']), helper.encode())
         if rng.randrange(2):
             # the body is piped after the message was rewritten by an earlier action of the same rule (another file, another header length)
             rewritten = True
